@@ -6,6 +6,7 @@
   (C01: `x.cnt`), every reaction's `cleanup` — after a run, or on the abort path — decrements once
   (`tryCleanupData`), and the entity is despawned exactly by the decrement that reaches zero.
 -/
+import Cobweb.Proofs.Boot
 import Cobweb.Proofs.Kill
 import Cobweb.Theorems.C01
 import Cobweb.Proofs.DataCount
@@ -74,17 +75,17 @@ theorem abort_releases (p : Prog) (h : Hist) (s : St) (sys d : Nat) :
     not yet started: in-line, postponed, waiting in a replay loop, or about to be aborted), plus the run that is reading
     it right now — and it is positive: the payload exists as long as a reader is to come. This holds whatever
     the tracker hands to which run (finding F1 permutes *which* pending reader reads, never *how many* there are). -/
-theorem counter_exact {p : Prog} {h : Hist} {s : St} (hr : Reach p h ({} : St) s) (d : Nat) (x : DataEnt)
+theorem counter_exact {p : Prog} {h : Hist} {s : St} {s0 : St} (hI0 : CoreInv s0) (hr : Reach p h s0 s) (d : Nat) (x : DataEnt)
     (hal : s.alive d = true) (hd : s.data d = some x) (hk : x.kind ≠ .sys) : x.cnt = readers d s ∧ 1 ≤ x.cnt :=
-  (data_reach p h hr).2.live d x hal hd hk
+  (core_reach_from p h hI0 hr).data.live d x hal hd hk
 
 /-- **No broadcast / entity-event bookkeeping entity outlives the tree**: at quiescence no such data entity is left,
     so its payload has been dropped (`kill` is the only way its data disappears, and `kill` drops the payload). -/
-theorem no_event_data_at_quiescence {p : Prog} {h : Hist} {s : St} (hr : Reach p h ({} : St) s) (hq : s.stack = [])
+theorem no_event_data_at_quiescence {p : Prog} {h : Hist} {s : St} {s0 : St} (hI0 : CoreInv s0) (hr : Reach p h s0 s) (hq : s.stack = [])
     (d : Nat) (x : DataEnt) (hal : s.alive d = true) (hd : s.data d = some x) : x.kind = .sys := by
   apply Classical.byContradiction
   intro hk
-  obtain ⟨I, D⟩ := data_reach p h hr
+  obtain ⟨I, D⟩ : Inv5 s ∧ DataInv s := ⟨(core_reach_from p h hI0 hr).inv5, (core_reach_from p h hI0 hr).data⟩
   have hc := D.live d x hal hd hk
   -- nothing is pending: no prepared entry, no frame, no current reader
   have hprep : s.trkEvt.prepared = [] := by
@@ -108,9 +109,9 @@ theorem no_event_data_at_quiescence {p : Prog} {h : Hist} {s : St} (hr : Reach p
 
 /-- The release happens exactly when the last reader is done: the decrement that despawns the data entity leaves no reader
     behind. (Contrapositive: while a scheduled reader has yet to run, the framework does not release the payload.) -/
-theorem release_leaves_no_reader {p : Prog} {h : Hist} {s : St} (hr : Reach p h ({} : St) s) (d : Nat) (x : DataEnt)
+theorem release_leaves_no_reader {p : Prog} {h : Hist} {s : St} {s0 : St} (hI0 : CoreInv s0) (hr : Reach p h s0 s) (d : Nat) (x : DataEnt)
     (hal : s.alive d = true) (hd : s.data d = some x) (hk : x.kind ≠ .sys) (hlast : x.cnt = 1) : readers d s = 1 := by
-  have := counter_exact hr d x hal hd hk
+  have := counter_exact hI0 hr d x hal hd hk
   omega
 
 
@@ -119,16 +120,16 @@ theorem release_leaves_no_reader {p : Prog} {h : Hist} {s : St} (hr : Reach p h 
 /-- **A system event's data always has a reader still to come**: the queued `sysEvent` command, its prepared entry in the
     system-event tracker, or the run that is reading right now (whose clean-up despawns the data). Along every
     execution. -/
-theorem sys_event_data_has_reader {p : Prog} {h : Hist} {s : St} (hr : Reach p h ({} : St) s) (d : Nat) (x : DataEnt)
+theorem sys_event_data_has_reader {p : Prog} {h : Hist} {s : St} {s0 : St} (hI0 : CoreInv s0) (hr : Reach p h s0 s) (d : Nat) (x : DataEnt)
     (hd : s.data d = some x) (hk : x.kind = .sys) : hasReader s d :=
-  (sys_reach p h hr).2.2.live d x hd hk
+  (core_reach_from p h hI0 hr).sys.live d x hd hk
 
 /-- **No system-event data outlives its tree**: at quiescence none is left — its reader's clean-up (or the death of its
     entity) has released it. With `no_event_data_at_quiescence`: no event data of any kind survives a tree. -/
-theorem no_sys_event_data_at_quiescence {p : Prog} {h : Hist} {s : St} (hr : Reach p h ({} : St) s) (hq : s.stack = [])
+theorem no_sys_event_data_at_quiescence {p : Prog} {h : Hist} {s : St} {s0 : St} (hI0 : CoreInv s0) (hr : Reach p h s0 s) (hq : s.stack = [])
     (d : Nat) (x : DataEnt) (hd : s.data d = some x) : x.kind ≠ .sys := by
   intro hk
-  obtain ⟨I, _, S⟩ := sys_reach p h hr
+  obtain ⟨I, S⟩ : Inv5 s ∧ SysInv s := ⟨(core_reach_from p h hI0 hr).inv5, (core_reach_from p h hI0 hr).sys⟩
   have hrd := S.live d x hd hk
   have htop := I.flag.top; rw [hq] at htop
   have hfl : s.trkSys.reacting = false := by
@@ -152,43 +153,43 @@ theorem no_sys_event_data_at_quiescence {p : Prog} {h : Hist} {s : St} (hr : Rea
   · simp [allCmds, hwq, hq] at h1
 
 /-- No event data of any kind at quiescence. -/
-theorem no_data_at_quiescence {p : Prog} {h : Hist} {s : St} (hr : Reach p h ({} : St) s) (hq : s.stack = [])
+theorem no_data_at_quiescence {p : Prog} {h : Hist} {s : St} {s0 : St} (hI0 : CoreInv s0) (hr : Reach p h s0 s) (hq : s.stack = [])
     (d : Nat) (hal : s.alive d = true) : s.data d = none := by
   cases hd : s.data d with
   | none => rfl
   | some x =>
     exfalso
-    exact no_sys_event_data_at_quiescence hr hq d x hd (no_event_data_at_quiescence hr hq d x hal hd)
+    exact no_sys_event_data_at_quiescence hI0 hr hq d x hd (no_event_data_at_quiescence hI0 hr hq d x hal hd)
 
 /-! ### payload accounting (broadcast, entity-event and system-event payloads alike) -/
 
 /-- **Every sent payload is accounted for, along every execution**: the number of times payload `pid` was sent equals the
     number of times it was dropped, plus the queued commands that still carry it (`broadcast`, `entityEvent`, the spawn of
     its data entity), plus the data entities that store it untaken. Nothing is lost and nothing is dropped twice. -/
-theorem payload_accounting {p : Prog} {h : Hist} {s : St} (hr : Reach p h ({} : St) s) (pid : Nat) :
+theorem payload_accounting {p : Prog} {h : Hist} {s : St} {s0 : St} (hI0 : CoreInv s0) (hr : Reach p h s0 s) (pid : Nat) :
     s.trace.count (.send pid) = s.trace.count (.dropPayload pid) + qW (cmdP pid) s + dataP pid s := by
-  have := (pay_reach p h hr).bal pid
+  have := ((core_reach_from p h hI0 hr).pay).bal pid
   simpa [nS, nD] using this
 
 /-- **A payload is never dropped more often than it was sent** — in particular a payload sent once is dropped at most once,
     whichever way it goes (no listener, dead data entity, last reader's clean-up, a taken system event, an aborted run). -/
-theorem never_dropped_more_than_sent {p : Prog} {h : Hist} {s : St} (hr : Reach p h ({} : St) s) (pid : Nat) :
+theorem never_dropped_more_than_sent {p : Prog} {h : Hist} {s : St} {s0 : St} (hI0 : CoreInv s0) (hr : Reach p h s0 s) (pid : Nat) :
     s.trace.count (.dropPayload pid) ≤ s.trace.count (.send pid) := by
-  have := payload_accounting hr pid; omega
+  have := payload_accounting hI0 hr pid; omega
 
 /-- **At quiescence every payload that was sent has been dropped exactly as often as it was sent**: no queued command is
     left, and no data entity (`no_data_at_quiescence`, and dead entities hold no data) — so the two counts agree. -/
-theorem all_payloads_dropped_at_quiescence {p : Prog} {h : Hist} {s : St} (hr : Reach p h ({} : St) s) (hq : s.stack = [])
+theorem all_payloads_dropped_at_quiescence {p : Prog} {h : Hist} {s : St} {s0 : St} (hI0 : CoreInv s0) (hr : Reach p h s0 s) (hq : s.stack = [])
     (pid : Nat) : s.trace.count (.dropPayload pid) = s.trace.count (.send pid) := by
-  obtain ⟨I, D, _⟩ := sys_reach p h hr
+  obtain ⟨I, D⟩ : Inv5 s ∧ DataInv s := ⟨(core_reach_from p h hI0 hr).inv5, (core_reach_from p h hI0 hr).data⟩
   have htop := I.flag.top; rw [hq] at htop
   have hwq : s.wq = [] := htop.2
   have hdat : ∀ d, s.data d = none := by
     intro d
     cases hal : s.alive d with
-    | true => exact no_data_at_quiescence hr hq d hal
+    | true => exact no_data_at_quiescence hI0 hr hq d hal
     | false => exact D.dead d hal
-  have := payload_accounting hr pid
+  have := payload_accounting hI0 hr pid
   have e1 : qW (cmdP pid) s = 0 := by simp [qW, hwq, hq, sumF]
   have e2 : dataP pid s = 0 := by
     simp only [dataP]
@@ -197,9 +198,9 @@ theorem all_payloads_dropped_at_quiescence {p : Prog} {h : Hist} {s : St} (hr : 
 
 /-- **A data entity id is never pending twice**: it is the target of at most one queued spawn command, or it holds data,
     never both; and a queued payload is never already marked taken. -/
-theorem data_entity_spawned_once {p : Prog} {h : Hist} {s : St} (hr : Reach p h ({} : St) s) (d : Nat) :
+theorem data_entity_spawned_once {p : Prog} {h : Hist} {s : St} {s0 : St} (hI0 : CoreInv s0) (hr : Reach p h s0 s) (d : Nat) :
     qW (cmdSp d) s + (if (s.data d).isSome then 1 else 0) ≤ 1 := by
-  have := (pay_reach p h hr).occ1 d
+  have := ((core_reach_from p h hI0 hr).pay).occ1 d
   simpa [occ, someD] using this
 
 
